@@ -163,11 +163,13 @@ pub struct GenParams {
     pub global_splits: bool,
     /// opening positions for any of the securities (C16), not only the first
     pub opening_all_secs: bool,
+    /// start near Dec 31 and favour gaps that cross year ends (C06)
+    pub year_edge: bool,
 }
 
 impl GenParams {
     pub fn ledger() -> GenParams {
-        GenParams { max_rows: 14, secs: vec!["FOO", "BAR", "XYZ.TO"], afs: vec!["", "Spouse", "(R)", "Spouse (R)", "My  Kid"], manual_sfla: true, splits: true, roc: true, usd_norate: true, foreign: true, sfl_column_pct: 0, loss_bias: true, shuffle: true, base_year_lo: 2005, base_year_hi: 2030, tame_numbers: false, global_splits: true, opening_all_secs: false }
+        GenParams { max_rows: 14, secs: vec!["FOO", "BAR", "XYZ.TO"], afs: vec!["", "Spouse", "(R)", "Spouse (R)", "My  Kid"], manual_sfla: true, splits: true, roc: true, usd_norate: true, foreign: true, sfl_column_pct: 0, loss_bias: true, shuffle: true, base_year_lo: 2005, base_year_hi: 2030, tame_numbers: false, global_splits: true, opening_all_secs: false, year_edge: false }
     }
 }
 
@@ -215,7 +217,8 @@ pub fn build_history(intents: &[Intent], p: &GenParams, head: &Intent) -> Built 
     let start_table: Vec<Date> = vec![
         ymd(p.base_year_lo.max(2010), 3, 2), ymd(2016, 12, 20), ymd(2019, 12, 27), ymd(2020, 2, 1), ymd(2016, 11, 25), ymd(2017, 1, 2), ymd(p.base_year_lo, 6, 15), ymd(p.base_year_hi, 1, 10), ymd(2023, 12, 29), ymd(2024, 2, 27),
     ];
-    let mut cur_date = pick(head.date_off, &start_table);
+    let edge_table: Vec<Date> = vec![ymd(2015, 12, 29), ymd(2016, 12, 30), ymd(2019, 12, 31), ymd(2020, 12, 28), ymd(2022, 12, 30), ymd(2023, 12, 29)];
+    let mut cur_date = if p.year_edge { pick(head.date_off, &edge_table) } else { pick(head.date_off, &start_table) };
     let mut st: BTreeMap<String, SecState> = BTreeMap::new();
     let mut rows: Vec<(HRow, u16)> = vec![];
     let mut opening = vec![];
@@ -250,9 +253,10 @@ pub fn build_history(intents: &[Intent], p: &GenParams, head: &Intent) -> Built 
         let base = match wpick(it.date_ref, &[(5u32, 0u8), (3, 1), (3, 2)]) {
             1 => s.last_buy, 2 => s.last_loss_sale, _ => None,
         };
+        let edge_gaps: [(u32, i64); 9] = [(5, 0), (4, 1), (3, 2), (2, 3), (2, 30), (3, 362), (3, 364), (3, 366), (1, 700)];
         let mut d = match base {
-            Some(b) => b + Duration::days(wpick(it.date_off, &off_table)),
-            None => cur_date + Duration::days(wpick(it.date_off, &gap_table)),
+            Some(b) if !p.year_edge || it.flag % 2 == 0 => b + Duration::days(wpick(it.date_off, &off_table)),
+            _ => cur_date + Duration::days(if p.year_edge { wpick(it.date_off, &edge_gaps) } else { wpick(it.date_off, &gap_table) }),
         };
         if d < cur_date { d = cur_date; }
         let mut kind = wpick(it.kind, &[(6u32, Act::Buy), (6, Act::Sell), (if p.roc { 1 } else { 0 }, Act::Roc), (if p.splits { 2 } else { 0 }, Act::Split), (if p.manual_sfla { 1 } else { 0 }, Act::Sfla)]);
